@@ -68,10 +68,15 @@ def main():
         print(f"HARNESS-ERROR property={pid} import failed")
         return 2
 
-    if args.replay:
-        return runner.replay(pid, mod, args.replay)
-    return runner.run_property(pid, mod, args.tier, seed, args.jobs, only_facets=args.facet, scale=args.scale,
-                               write_evidence=not args.no_evidence)
+    try:
+        if args.replay:
+            return runner.replay(pid, mod, args.replay)
+        return runner.run_property(pid, mod, args.tier, seed, args.jobs, only_facets=args.facet, scale=args.scale,
+                                   write_evidence=not args.no_evidence)
+    except BaseException:
+        traceback.print_exc()
+        print(f"HARNESS-ERROR property={pid} runner crashed")
+        return 2
 
 
 if __name__ == "__main__":
